@@ -56,6 +56,10 @@ def gen_plan(rng, tier, idx, opts):
                 ops.append({"op": "set", "attr": "n", "v": round(rng.uniform(1.5, 5.0), 3) if rng.random() < 0.8 else 2.0})
             else:
                 ops.append({"op": "set", "attr": "fc", "v": round(10 ** rng.uniform(2, 3.8), 2)})
+                if rng.random() < 0.3:
+                    # a whole number of MHz held in a small numpy integer type (e.g. read from a table of carriers)
+                    ops[-1]["v"] = int(round(ops[-1]["v"]))
+                    ops[-1]["np"] = rng.choice(["int32", "int64", "uint32", "float32"])
         elif model == "metis":
             ops.append({"op": "set", "attr": "fc", "v": round(10 ** rng.uniform(2.5, 3.8), 2)})
         elif model == "hata":
@@ -330,6 +334,18 @@ def execute(plan):
                             viol("inverse", step, "an earlier answer of which_distance_dB edited by the caller changed a later answer", rel="inverse_buffer")
                             return
                         del r1_copy
+        # whole-number distances held in an INTEGER array (and a Python int): same loss as for the same distances as floats
+        if model in ("general", "freespace", "3gpp1", "hata"):
+            di = np.array([1, 2, 5, 10, 20], dtype=np.int64) if model != "hata" else np.array([1, 2, 5, 10, 20], dtype=np.int32)
+            try:
+                li = np.asarray(obj.calc_path_loss_dB(di.copy()), dtype=float)
+                lf = np.asarray(obj.calc_path_loss_dB(di.astype(float)), dtype=float)
+                l1 = float(obj.calc_path_loss_dB(5))
+            except RuntimeError:
+                li = lf = None          # too small for the model under the raise policy: both forms refuse
+            if li is not None and (li.shape != lf.shape or np.max(np.abs(li - lf)) > 1e-9 or abs(l1 - lf[2]) > 1e-9):
+                viol("formula", step, "the loss for integer distances %s differs from the loss for the same distances as floats" % di.tolist(), rel="int_distance")
+                return
         # distances as a 2-D array (e.g. base stations x users), including too-small ones: same law per element
         if model != "hata":
             lo, hi = (0, 3) if model == "metis" else (-3, 3)
@@ -442,7 +458,7 @@ def execute(plan):
                     before = public_state(obj, model)
                     rejected = False
                     try:
-                        setattr(obj, op["attr"], op["v"])
+                        setattr(obj, op["attr"], getattr(np, op["np"])(op["v"]) if op.get("np") else op["v"])
                         sets += 1
                     except RuntimeError:
                         rejected = True
